@@ -291,7 +291,7 @@ theorem evaluatePolyWithOffset_spec (τ : F) (A k b : Nat) (hτ : IsPrimitiveRoo
   obtain ⟨tw', e', hts, htv⟩ := getTwiddles_spec (F := F) τ A k (by omega) (by omega)
   rw [htw] at e'
   obtain rfl : tw = tw' := Option.some.inj e'
-  have hn : (2 : Nat) ^ (k + 1) * 2 ^ b = 2 ^ (k + 1 + b) := by rw [Nat.pow_add]
+  have hn : (2 : Nat) ^ (k + 1) * 2 ^ b = 2 ^ (k + 1 + b) := (Nat.pow_add 2 (k + 1) b).symm
   unfold evaluatePolyWithOffset
   rw [hp, hn, checkDomain_fieldOps τ A (k + 1 + b) hk]
   have c1 : ¬ ¬ (isPow2 (2 ^ (k + 1)) = true ∧ isPow2 (2 ^ b) = true) :=
@@ -305,15 +305,11 @@ theorem evaluatePolyWithOffset_spec (τ : F) (A k b : Nat) (hτ : IsPrimitiveRoo
   let P : Nat → Array M → Prop := fun t res => res.size = t * n ∧
     ∀ i j, i < t → j < n → vw res (i * n + j) =
       evalAt n (vw p) (rootK τ A (k + 1) ^ brev (k + 1) j * (g ^ brev b i * off))
-  have hloop := forRange_inv (σ := Array M)
-    (fun i res =>
-      match permuteIndex (2 ^ b) i with
-      | none => none
-      | some idx =>
-        (cosetChunk (modOps F M) (fieldOps F τ A) maxLoop p tw
-          ((fieldOps F τ A).mul ((fieldOps F τ A).exp g idx) off)).map (res ++ ·)) P (2 ^ b) 0
-    (Array.mkEmpty (2 ^ (k + 1 + b)))
-    ⟨by simp, fun i j hi _ => by omega⟩
+  apply forRange_bind_inv (σ := Array M) (P := P)
+    (Q := fun r => r.size = 2 ^ (k + 1 + b) ∧
+      ∀ q, q < 2 ^ (k + 1 + b) → vw r q = evalAt n (vw p) (off * g ^ q))
+  · exact ⟨by simp, fun i j hi _ => by omega⟩
+  · exact
     (by
       intro t res _ ht ⟨hrs, hrv⟩
       simp only [Nat.zero_add] at ht
@@ -341,32 +337,126 @@ theorem evaluatePolyWithOffset_spec (τ : F) (A k b : Nat) (hτ : IsPrimitiveRoo
           have : i * n + j - i * n = j := by omega
           rw [this]
           exact hcv j hj)
-  obtain ⟨res, eres, hrs, hrv⟩ := hloop
-  simp only [Nat.zero_add] at hrs hrv
-  rw [eres, Option.bind_some]
-  have hrsz : res.size = 2 ^ (k + 1 + b) := by rw [hrs, ← hn]; ring
-  obtain ⟨r, er, hrs2, hrv2⟩ := permute_spec (k + 1 + b) hk64 res hrsz
-  refine ⟨r, er, by rw [hrs2, hrsz], ?_⟩
-  intro q hq
-  have h1 := hrv2 q (by rw [hrsz]; exact hq)
+  · intro res ⟨hrs, hrv⟩
+    simp only [Nat.zero_add] at hrs hrv
+    have hrsz : res.size = 2 ^ (k + 1 + b) := by rw [hrs, ← hn]; ring
+    obtain ⟨r, er, hrs2, hrv2⟩ := permute_spec (k + 1 + b) hk64 res hrsz
+    refine ⟨r, er, by rw [hrs2, hrsz], ?_⟩
+    intro q hq
+    have h1 := hrv2 q (by rw [hrsz]; exact hq)
+    rw [vw_eq_getElem?, h1, ← vw_eq_getElem?]
+    -- split the bit-reversed index into chunk number and position in the chunk
+    have hPlt : brev (k + 1 + b) q < 2 ^ (k + 1 + b) := brev_lt _ _
+    have hnpos : 0 < n := Nat.pow_pos (by decide)
+    set Pq := brev (k + 1 + b) q with hPq
+    have hdecomp : Pq = (Pq / n) * n + Pq % n := by
+      have := Nat.div_add_mod Pq n
+      rw [Nat.mul_comm] at this; omega
+    have hi : Pq / n < 2 ^ b := by
+      rw [Nat.div_lt_iff_lt_mul hnpos, Nat.mul_comm, hn]; exact hPlt
+    have hj : Pq % n < n := Nat.mod_lt _ hnpos
+    rw [hdecomp, hrv (Pq / n) (Pq % n) hi hj]
+    congr 1
+    rw [← rootK_pow_blowup τ A (k + 1) b hk, ← hg, ← pow_mul, mul_comm off, ← mul_assoc, ← pow_add]
+    congr 2
+    have hc := brev_concat (k + 1) b (Pq / n) (Pq % n) hj
+    rw [← hdecomp, hPq, brev_brev _ _ hq] at hc
+    rw [hc]; ring
+
+/-! ### interpolation -/
+
+theorem rootK_primitive (τ : F) (A k : Nat) (hτ : IsPrimitiveRoot τ (2 ^ A)) (hk : k ≤ A) :
+    IsPrimitiveRoot (rootK τ A k) (2 ^ k) := by
+  unfold rootK
+  apply hτ.pow (Nat.pow_pos (by decide))
+  rw [← Nat.pow_add]; congr 1; omega
+
+theorem rootK_pow_pred (τ : F) (A k : Nat) (hτ : IsPrimitiveRoot τ (2 ^ A)) (hk : k ≤ A) :
+    rootK τ A k ^ (2 ^ k - 1) = (rootK τ A k)⁻¹ := by
+  have h1 := (rootK_primitive τ A k hτ hk).pow_eq_one
+  have hpos : 0 < 2 ^ k := Nat.pow_pos (by decide)
+  have h0 : rootK τ A k ≠ 0 := (rootK_primitive τ A k hτ hk).ne_zero (by omega)
+  apply eq_inv_of_mul_eq_one_left
+  rw [← pow_succ]
+  have : 2 ^ k - 1 + 1 = 2 ^ k := by omega
+  rw [this, h1]
+
+theorem getInvTwiddles_spec (τ : F) (A k : Nat) (hτ : IsPrimitiveRoot τ (2 ^ A)) (hk : k + 1 ≤ A)
+    (hk32 : k + 1 ≤ 31) :
+    ∃ tw, getInvTwiddles (fieldOps F τ A) (2 ^ (k + 1)) = some tw ∧ tw.size = 2 ^ k ∧
+      ∀ i, i < 2 ^ k → twf tw i = (rootK τ A (k + 1))⁻¹ ^ brev k i := by
+  unfold getInvTwiddles
+  rw [checkDomain_fieldOps τ A (k + 1) hk]
+  simp only [rootOfUnity_fieldOps τ A (k + 1) hk (by omega)]
+  have hlt : 2 ^ (k + 1) < 4294967296 := by
+    have : (2 : Nat) ^ (k + 1) < 2 ^ 32 := Nat.pow_lt_pow_right (by decide) (by omega)
+    simpa using this
+  have hmod : 2 ^ (k + 1) % 4294967296 = 2 ^ (k + 1) := Nat.mod_eq_of_lt hlt
+  have hpos : 0 < 2 ^ (k + 1) := Nat.pow_pos (by decide)
+  rw [hmod, if_neg (by omega)]
+  have : 2 ^ (k + 1) / 2 = 2 ^ k := by rw [Nat.pow_succ]; omega
+  rw [this]
+  have he : (fieldOps F τ A).exp (rootK τ A (k + 1)) (2 ^ (k + 1) - 1) = (rootK τ A (k + 1))⁻¹ :=
+    rootK_pow_pred τ A (k + 1) hτ hk
+  rw [he]
+  exact permute_powerSeries τ A _ k (by omega)
+
+theorem vw_map (a : Array M) (f : M → M) (m : Nat) (hm : m < a.size) : vw (a.map f) m = f (vw a m) := by
+  rw [vw_of_lt _ _ (by simpa using hm), vw_of_lt _ _ hm]
+  simp
+
+/-- the core of both interpolation functions: transform with the inverse twiddles, then `permute` -/
+theorem invTransform_spec (τ : F) (A k : Nat) (hτ : IsPrimitiveRoot τ (2 ^ A)) (hk : k + 1 ≤ A)
+    (hk32 : k + 1 ≤ 31) (maxLoop : Nat) (v : Array M) (hv : v.size = 2 ^ (k + 1)) (itw : Array F)
+    (hts : itw.size = 2 ^ k) (htv : ∀ i, i < 2 ^ k → twf itw i = (rootK τ A (k + 1))⁻¹ ^ brev k i) :
+    ∃ b, fftTop (modOps F M) maxLoop itw v = some b ∧ b.size = 2 ^ (k + 1) ∧
+      ∀ m, m < 2 ^ (k + 1) → vw b m = dft (rootK τ A (k + 1))⁻¹ (2 ^ (k + 1)) (vw v) (brev (k + 1) m) := by
+  obtain ⟨b, eb, hbs, hbv⟩ := fftTop_spec (modOps F M) maxLoop itw k v hv (by omega)
+  refine ⟨b, eb, by rw [hbs, hv], ?_⟩
+  intro m hm
+  rw [hbv m hm]
+  have hTw : TwOk (twf itw) (rootK τ A (k + 1))⁻¹ (k + 1) := by
+    intro i _ hi
+    simp only [Nat.add_sub_cancel] at hi ⊢
+    exact htv i hi
+  apply fftRec_eq_dft (k + 1) _ (twf itw) (vw v) _ hTw m hm
+  intro _
+  have := rootK_half τ A (k + 1) hk (by omega) hτ
+  simp only [Nat.add_sub_cancel] at this ⊢
+  rw [inv_pow, this]
+  norm_num
+
+/-- `interpolate_poly`: coefficient `l` of the result is `n⁻¹ •` the transform with the inverse root -/
+theorem interpolatePoly_spec (τ : F) (A k : Nat) (hτ : IsPrimitiveRoot τ (2 ^ A)) (hk : k + 1 ≤ A)
+    (hk32 : k + 1 ≤ 31) (maxLoop : Nat) (v : Array M) (hv : v.size = 2 ^ (k + 1)) (itw : Array F)
+    (hitw : getInvTwiddles (fieldOps F τ A) (2 ^ (k + 1)) = some itw) :
+    ∃ r, interpolatePoly (modOps F M) (fieldOps F τ A) maxLoop v itw = some r ∧ r.size = 2 ^ (k + 1) ∧
+      ∀ l, l < 2 ^ (k + 1) →
+        vw r l = ((2 ^ (k + 1) : Nat) : F)⁻¹ • dft (rootK τ A (k + 1))⁻¹ (2 ^ (k + 1)) (vw v) l := by
+  obtain ⟨tw', e', hts, htv⟩ := getInvTwiddles_spec (F := F) τ A k hτ hk hk32
+  rw [hitw] at e'
+  obtain rfl : itw = tw' := Option.some.inj e'
+  unfold interpolatePoly
+  rw [hv, checkDomain_fieldOps τ A (k + 1) hk]
+  have c2 : ¬ (2 ^ (k + 1) ≠ itw.size * 2) := by rw [hts, Nat.pow_succ]; simp
+  have hlt : 2 ^ (k + 1) < 4294967296 := by
+    have : (2 : Nat) ^ (k + 1) < 2 ^ 32 := Nat.pow_lt_pow_right (by decide) (by omega)
+    simpa using this
+  have c3 : ¬ (2 ^ (k + 1) > 4294967295) := by omega
+  have hinv : (fieldOps F τ A).inv ((fieldOps F τ A).ofNat (2 ^ (k + 1))) = some (((2 ^ (k + 1) : Nat) : F)⁻¹) := rfl
+  simp only [c2, c3, ↓reduceIte, hinv]
+  obtain ⟨b, eb, hbs, hbv⟩ := invTransform_spec (M := M) τ A k hτ hk hk32 maxLoop v hv itw hts htv
+  rw [eb, Option.bind_some]
+  have hss : (shiftBy (modOps F M) b ((2 ^ (k + 1) : Nat) : F)⁻¹).size = 2 ^ (k + 1) := by
+    simp [shiftBy, hbs]
+  obtain ⟨r, er, hrs, hrv⟩ := permute_spec (k + 1) (by omega) _ hss
+  refine ⟨r, er, by rw [hrs, hss], ?_⟩
+  intro l hl
+  have h1 := hrv l (by rw [hss]; exact hl)
   rw [vw_eq_getElem?, h1, ← vw_eq_getElem?]
-  -- split the bit-reversed index into chunk number and position in the chunk
-  have hPlt : brev (k + 1 + b) q < 2 ^ (k + 1 + b) := brev_lt _ _
-  have hnpos : 0 < n := Nat.pow_pos (by decide)
-  set Pq := brev (k + 1 + b) q with hPq
-  have hdecomp : Pq = (Pq / n) * n + Pq % n := by
-    have := Nat.div_add_mod Pq n
-    rw [Nat.mul_comm] at this; omega
-  have hi : Pq / n < 2 ^ b := by
-    rw [Nat.div_lt_iff_lt_mul hnpos, Nat.mul_comm, hn]; exact hPlt
-  have hj : Pq % n < n := Nat.mod_lt _ hnpos
-  rw [hdecomp, hrv (Pq / n) (Pq % n) hi hj]
-  congr 1
-  rw [← rootK_pow_blowup τ A (k + 1) b hk, ← hg, ← pow_mul, mul_comm off, ← mul_assoc, ← pow_add]
-  congr 2
-  have hc := brev_concat (k + 1) b (Pq / n) (Pq % n) hj
-  rw [← hdecomp, hPq, brev_brev _ _ hq] at hc
-  rw [hc]; ring
+  unfold shiftBy
+  rw [vw_map _ _ _ (by rw [hbs]; exact brev_lt _ _), hbv _ (brev_lt _ _), brev_brev _ _ hl]
+  rfl
 
 end field
 
